@@ -80,7 +80,7 @@ func genFECase(seed uint64, i int) feCase {
 		"torn-write", "lost-write", "lost-package", "flipped-identifier", "mixed-package-clauses", "none",
 		"torn-write-at-zero", "torn-in-package-clause", "flipped-keyword", "comment-only-file", "torn-test-file",
 		"rules-valid-then-pattern-without-match", "unknown-failOn-with-other-checkers", "non-positive-concurrency",
-		"malformed-import-path", "unresolved-import"}
+		"malformed-import-path", "unresolved-import", "empty-enable-value"}
 	c.Fault = kinds[(i/len(frontends))%len(kinds)]
 	switch c.Fault {
 	case "malformed-go-version":
@@ -101,6 +101,10 @@ func genFECase(seed uint64, i int) feCase {
 		c.Class, c.Flags, c.Names = "config", []string{"-concurrency=" + vs[r.Intn(len(vs))]}, []string{"concurrency"}
 	case "empty-selection":
 		c.Class, c.Flags, c.Names = "config", []string{"-enable=nosuchchecker", "-disable="}, []string{"empty", "nosuchchecker"}
+	case "empty-enable-value":
+		// a list that is explicitly empty (-enable=$CHECKS with CHECKS unset) is an empty selection, not "the default"
+		vs := []string{"", " , ", ","}
+		c.Class, c.Flags, c.Names = "config", []string{"-enable=" + vs[r.Intn(len(vs))]}, []string{"empty", "enable"}
 	case "empty-selection-by-disable":
 		c.Class, c.Flags, c.Names = "config", []string{"-enable=hugeParam", "-disable=hugeParam"}, []string{"empty", "hugeParam"}
 	case "unparsable-parameter":
